@@ -10,13 +10,13 @@ git -C /repo worktree remove --force $wt >/dev/null 2>&1
 git -C /repo worktree add --detach $wt HEAD -q || exit 2
 cd $wt
 cp "$demo" tests/zz_seed_demo.rs
-demo_base=$(cargo test --offline --features codec --test zz_seed_demo 2>&1 | grep -E "^test result" | head -1)
+demo_base=$(cargo test --offline --features codec --test zz_seed_demo 2>&1 | grep -E "^test result:" | head -1)
 git apply "$patch" || { echo "$name: patch does not apply"; exit 2; }
 mv tests/zz_seed_demo.rs /tmp/zz_seed_demo_$name.rs
 s1=$(cargo test --offline 2>&1 | grep -E "^test result|^error|warning: unused" | grep -vc "ok\.")
 s2=$(cargo test --offline --features codec 2>&1 | grep -E "^test result|^error|warning: unused" | grep -vc "ok\.")
 mv /tmp/zz_seed_demo_$name.rs tests/zz_seed_demo.rs
-demo_mut=$(cargo test --offline --features codec --test zz_seed_demo 2>&1 | grep -E "^test result" | head -1)
+demo_mut=$(cargo test --offline --features codec --test zz_seed_demo 2>&1 | grep -E "^test result:" | head -1)
 cd /; git -C /repo worktree remove --force $wt
 ok=1
 [[ "$s1" == "0" && "$s2" == "0" ]] || ok=0
